@@ -1,10 +1,15 @@
 import Tahoe.Base.DrvUtil
-import Tahoe.Spans.DataModel
+import Tahoe.Spans.RegModel
 /-! Driver for C37.
     `spans op op …` where op ∈ a:S:L (add) r:S:L (remove) c:S:L (contains) l (len)
     i:S+L,S+L,… (self := self & other)  u:… (self := self + other)  m:… (self := self - other)  d (dump).
     `dspans op op …` where op ∈ a:OFF:HEX (add) r:S:L (remove) g:S:L (get) p:S:L (pop) l (len)
     s (get_spans) d (dump); a chunk list prints as OFF=HEX,OFF=HEX,… (`-` if empty), `None` as N.
+    `reg op op …`: named values r0..r3 (Spans) and d0..d1 (DataSpans), all empty at the start; op ∈
+    add:K:S:L rm:K:S:L and:K:I:J sub:K:I:J or:K:I:J iadd:I:J isub:I:J copy:K:I set:K:S+L,S+L,… one:K:S:L
+    dadd:D:OFF:HEX drm:D:S:L dpop:D:S:L dcopy:D:E gs:K:D (rK = dD.get_spans())
+    and the queries c:I:S:L len:I dget:D:S:L dlen:D.  After every op the field is
+    `[result|]r0/r1/r2/r3/d0/d1` — ALL registers, so that aliasing in the real code cannot hide.
     Output: one field per op joined by `;`. -/
 open Tahoe.Drv Tahoe.Spans
 
@@ -61,7 +66,56 @@ def runDOps (s : List Chunk) (acc : List String) : List String → Option (List 
     | some (s', out) => runDOps s' (out :: acc) rest
     | none => none
 
+def nR : Nat := 4
+def nD : Nat := 2
+
+def showRegs (st : RState) : String :=
+  "/".intercalate (((List.range nR).map (fun i => showSpans (st.r i))) ++
+                   ((List.range nD).map (fun i => showChunks (st.d i))))
+
+def regR (t : String) : Option Nat := do let k ← t.toNat?; if k < nR then some k else none
+def regD (t : String) : Option Nat := do let k ← t.toNat?; if k < nD then some k else none
+
+/-- parse one token into a state-changing `ROp` (with an optional query result computed on the state before) -/
+def parseROp (st : RState) (op : String) : Option (Option ROp × Option String) :=
+  match op.splitOn ":" with
+  | ["add", k, a, l] => do pure (some (.add (← regR k) (← a.toNat?) (← l.toNat?)), none)
+  | ["rm", k, a, l] => do pure (some (.rm (← regR k) (← a.toNat?) (← l.toNat?)), none)
+  | ["and", k, i, j] => do pure (some (.and (← regR k) (← regR i) (← regR j)), none)
+  | ["sub", k, i, j] => do pure (some (.sub (← regR k) (← regR i) (← regR j)), none)
+  | ["or", k, i, j] => do pure (some (.or (← regR k) (← regR i) (← regR j)), none)
+  | ["iadd", i, j] => do pure (some (.iadd (← regR i) (← regR j)), none)
+  | ["isub", i, j] => do pure (some (.isub (← regR i) (← regR j)), none)
+  | ["copy", k, i] => do pure (some (.copy (← regR k) (← regR i)), none)
+  | ["set", k, o] => do pure (some (.set (← regR k) (← parseSpans o)), none)
+  | ["one", k, a, l] => do pure (some (.single (← regR k) (← a.toNat?) (← l.toNat?)), none)
+  | ["dadd", d, a, h] => do pure (some (.dadd (← regD d) (← a.toNat?) (← bytesOfHex h)), none)
+  | ["drm", d, a, l] => do pure (some (.drm (← regD d) (← a.toNat?) (← l.toNat?)), none)
+  | ["dpop", d, a, l] => do
+      let d ← regD d; let a ← a.toNat?; let l ← l.toNat?
+      pure (some (.dpop d a l), some (showOpt (dpop (st.d d) a l).1))
+  | ["dcopy", d, e] => do pure (some (.dcopy (← regD d) (← regD e)), none)
+  | ["gs", k, d] => do pure (some (.getspans (← regR k) (← regD d)), none)
+  | ["c", i, a, l] => do
+      pure (none, some (if containsRange (st.r (← regR i)) (← a.toNat?) (← l.toNat?) then "T" else "F"))
+  | ["len", i] => do pure (none, some (toString (len (st.r (← regR i)))))
+  | ["dget", d, a, l] => do pure (none, some (showOpt (dget (← a.toNat?) (← l.toNat?) (st.d (← regD d)))))
+  | ["dlen", d] => do pure (none, some (toString (dlen (st.d (← regD d)))))
+  | _ => none
+
+def runROps (st : RState) (acc : List String) : List String → Option (List String)
+  | [] => some acc.reverse
+  | op :: rest => match parseROp st op with
+    | some (o, res) =>
+      let st' := match o with | some o => rstep st o | none => st
+      let out := (match res with | some r => r ++ "|" | none => "") ++ showRegs st'
+      runROps st' (out :: acc) rest
+    | none => none
+
 def handle : List String → String
+  | "reg" :: ops => match runROps RState.empty [] ops with
+    | some outs => ";".intercalate outs
+    | none => "bad-op"
   | "spans" :: ops => match runOps [] [] ops with
     | some outs => ";".intercalate outs
     | none => "bad-op"
